@@ -15,6 +15,12 @@
 (*                                harness computes independently            *)
 (*   EqualIffEncodingEqual        EqualPublicKeys(a,b) <=> marshal a =      *)
 (*                                marshal b, and EqualPublicKeys symmetric  *)
+(*   MarshalIdempotent, EqualImpliesSameEncoding, EqualImpliesSameIdentity, *)
+(*   SameEncodingImpliesEqual, EqualIsEquivalence   the parse-first laws    *)
+(*                                over the ACCEPTED wire forms of one key   *)
+(*                                (parameters absent/NULL/junk, unused      *)
+(*                                bits, long-form lengths, trailing bytes,  *)
+(*                                standard RSA/ECDSA/Ed25519 SPKIs)         *)
 (*   NonCanonicalSameFingerprint  an accepted non-canonical DER yields a    *)
 (*                                key that round-trips and has the          *)
 (*                                fingerprint of its canonical re-encoding  *)
@@ -28,7 +34,7 @@
 (***************************************************************************)
 EXTENDS Integers, Sequences, FiniteSets, TLC, Json, IOUtils
 
-K == INSTANCE Keys WITH Rich <- FALSE, StrictIdText <- TRUE, LengthFastPath <- FALSE, c <- [kind |-> "none"]
+K == INSTANCE Keys WITH Rich <- FALSE, StrictIdText <- TRUE, LengthFastPath <- FALSE, KeepParams <- FALSE, c <- [kind |-> "none"]
 
 Log == ndJsonDeserialize(IOEnv.TRACE)
 VARIABLES l, fresh, starts
@@ -56,6 +62,19 @@ Viol(i) ==
             {n \in {"NoPanic", "NonCanonicalSameFingerprint"} :
                CASE n = "NoPanic" -> ev.panic
                  [] n = "NonCanonicalSameFingerprint" -> ~ev.panic /\ ~ev.perr /\ (~ev.rt \/ ~ev.fpsame)}
+      [] ev.ev = "wires" ->
+            \* parse-first: x, y range over the wire forms of one case that ParsePublicKey ACCEPTED
+            LET A == {x \in 1..Len(ev.forms) : ev.acc[x]} IN
+            {n \in {"NoPanic", "MarshalIdempotent", "EqualImpliesSameEncoding", "EqualImpliesSameIdentity", "SameEncodingImpliesEqual", "EqualIsEquivalence"} :
+               CASE n = "NoPanic" -> ev.panic
+                 [] n = "MarshalIdempotent" -> ~ev.panic /\ \E x \in A : ~ev.idem[x]
+                 [] n = "EqualImpliesSameEncoding" -> ~ev.panic /\ \E x \in A : \E y \in A : ev.eq[x][y] /\ ev.m[x] # ev.m[y]
+                 \* (contrapositive: different identities => not EqualPublicKeys), under both default fingerprinters
+                 [] n = "EqualImpliesSameIdentity" -> ~ev.panic /\ \E x \in A : \E y \in A : ev.eq[x][y] /\ (ev.fpk[x] # ev.fpk[y] \/ ev.fpq[x] # ev.fpq[y])
+                 [] n = "SameEncodingImpliesEqual" -> ~ev.panic /\ \E x \in A : \E y \in A : ev.m[x] = ev.m[y] /\ ~ev.eq[x][y]
+                 [] n = "EqualIsEquivalence" -> ~ev.panic /\ (\/ \E x \in A : ~ev.eq[x][x]
+                                                              \/ \E x \in A : \E y \in A : ev.eq[x][y] # ev.eq[y][x]
+                                                              \/ \E x \in A : \E y \in A : \E z \in A : ev.eq[x][y] /\ ev.eq[y][z] /\ ~ev.eq[x][z])}
       [] ev.ev = "fp" ->
             {n \in {"FingerprintIsFunctionOfKey"} : PrevSameKey(i) /\ Log[i - 1].kind = ev.kind /\ Log[i - 1].id # ev.id}
       [] ev.ev = "idtext" ->
@@ -87,6 +106,8 @@ Drift(i) ==
       [] ev.ev = "idtext" -> {n \in {"ModelDisagrees", "SpecText"} :
                               CASE n = "ModelDisagrees" -> ~ev.panic /\ LET u == K!Unmarshal(ev.tb) IN (K!IsErr(u) # ev.err) \/ (~ev.err /\ ~K!IsErr(u) /\ u.id # ev.id)
                                 [] n = "SpecText" -> ev.textdrift}
+      \* which wire forms are accepted is the code's choice: a difference from Keys!ParseW is drift only
+      [] ev.ev = "wires" -> {n \in {"AcceptanceDiffers"} : ~ev.panic /\ Len(ev.macc) = Len(ev.acc) /\ ev.macc # ev.acc}
       [] ev.ev = "idpair" -> {n \in {"SpecText"} : ~ev.panic /\ K!Encode(ev.a) # ev.ta}
       [] OTHER -> {}
 
